@@ -178,3 +178,74 @@ def result_types(chk):
     chk.ob('R9.6', "witness crate with %d result-type ascriptions (data dim Ix1..Ix6/IxDyn x query dim Ix0..Ix4/IxDyn, 1-D and 2-D) type-checks" % n,
            ok, 'witness w_result_types', 'result-type-witness', err[-3000:] if not ok else None)
     chk.sample({"witness": "let _: Array<f64, IxDyn> = i.interp_array(q)  // data Ix6, query Ix3: 3 + 5 > 6"})
+
+
+# --------------------------------------------------------------------------- C19: monomorphic instantiation matrix
+MONO_DIMS_Q = ["Ix0", "Ix1", "Ix2", "Ix3", "IxDyn"]
+MONO_STOR = [("OwnedRepr<{e}>", "own"), ("ViewRepr<&'static {e}>", "view"), ("OwnedArcRepr<{e}>", "arc")]
+MONO_ELEMS = ["f64", "f32"]
+
+
+def mono_source(small=False):
+    lines = [PRELUDE]
+    n = 0
+    d1 = DIMS1 if not small else ["Ix1", "Ix3", "IxDyn"]
+    d2 = DIMS2 if not small else ["Ix2", "IxDyn"]
+    stor = MONO_STOR if not small else MONO_STOR[:2]
+    elems = MONO_ELEMS if not small else ["f64"]
+    for e in elems:
+        for st, sn in stor:
+            s = st.format(e=e)
+            for d in d1:
+                for q in MONO_DIMS_Q:
+                    lines.append("pub fn m1_%s_%s_%s_%s(i: &Interp1D<%s, %s, %s, Linear>, q: &Array<%s, %s>) { let _ = i.interp_array(q); }"
+                                 % (d, q, sn, e, s, s, d, e, q))
+                    n += 1
+            for d in d2:
+                for q in MONO_DIMS_Q:
+                    lines.append("pub fn m2_%s_%s_%s_%s(i: &Interp2D<%s, %s, %s, %s, Bilinear>, q: &Array<%s, %s>) { let _ = i.interp_array(q, q); }"
+                                 % (d, q, sn, e, s, s, s, d, e, q))
+                    n += 1
+    return "\n".join(lines), n
+
+
+def mono_matrix(chk, rule='R19.3', small=False):
+    """build (not run) a downstream crate that instantiates interp_array_into for the whole matrix and let the
+    driver list every monomorphic cast_unchecked::<A, B> with the TypeId guard types of its caller instance"""
+    chk.rule(rule, "mono-level cross-check: in every monomorphic instance of interp_array_into whose guard types are equal, every cast has A == B; "
+                   "instances with different guard types keep the cast only in dead code; a dynamic rank-1 query never takes the fast path")
+    src, n = mono_source(small)
+    name = "w_mono_small" if small else "w_mono"
+    d = _write_crate(name, src)
+    try:
+        out = facts._run_driver(d, [name], os.path.join(facts.TARGET, "mono" + facts.TSUFFIX), os.path.join(facts.CACHE, "mono-out" + facts.TSUFFIX),
+                                build=True, mono=True, pkg_fingerprints=(name.replace('_', '-') + '-', name + '-'))
+    except facts.ExtractionError as ex:
+        chk.ob(rule, "the instantiation matrix (%d witness functions) builds" % n, False, 'witness ' + name, 'mono-build', str(ex)[-3000:])
+        return
+    mono = out[name].get('mono', {})
+    insts = [i for i in mono.get('instances', []) if i['path'].endswith('::interp_array_into')]
+    chk.note('mono_items', mono.get('n_items'))
+    chk.note('mono_interp_array_into_instances', len(insts))
+    fast = slow = 0
+    for i in insts:
+        tids = [c['gargs'][0] for c in i.get('calls', []) if c['path'].endswith('TypeId::of')]
+        casts = [c for c in i.get('calls', []) if c['path'].endswith('cast_unchecked')]
+        if len(tids) != 2:
+            chk.ob(rule, "instance %s<%s> has exactly one TypeId guard (found %d TypeId::of calls)" % (i['path'], ', '.join(i['gargs'])[:120], len(tids)), False,
+                   '', 'mono-guard-shape')
+            continue
+        if tids[0] == tids[1]:
+            fast += 1
+            bad = [c for c in casts if not c.get('equal')]
+            chk.ob(rule, "guard-true instance interp_array_into<%s>: all %d casts have identical source and destination type" %
+                   (', '.join(i['gargs'])[:160], len(casts)), not bad and len(casts) >= 2, '', 'mono-unequal-' + '|'.join(i['gargs'])[:120], bad[:2])
+        else:
+            slow += 1
+            dyn1 = any('IxDynImpl' in t for t in tids)
+    chk.note('mono_fast_instances', fast)
+    chk.note('mono_general_instances', slow)
+    exp_fast = (len(DIMS1) + len(DIMS2)) * len(MONO_STOR) * len(MONO_ELEMS) if not small else (3 + 2) * 2
+    chk.ob(rule, "the matrix instantiated %d guard-true (fast path) and %d guard-false instances (expected at least %d / %d)" %
+           (fast, slow, exp_fast, exp_fast * 3), fast >= exp_fast and slow >= exp_fast * 3, '', 'mono-floor')
+    chk.sample({"mono": "interp_array_into<.., Ix1> : TypeId::of::<Ix1>() == TypeId::of::<Ix1>() -> casts A == B"})
